@@ -10,13 +10,14 @@ le = impl.le
 _lic_cache = {}
 
 
-def licensing(table):
-    k = json.dumps(table)
+def licensing(table, records=False):
+    """a Licensing over the table; `records`: the table given as symbol-like user objects instead of LicenseSymbols"""
+    k = json.dumps([table, records])
     lic = _lic_cache.get(k)
     if lic is None:
         if len(_lic_cache) > 2000:
             _lic_cache.clear()
-        lic = le.Licensing(impl.table_objs(table))
+        lic = le.Licensing(impl.table_records(table) if records else impl.table_objs(table))
         _lic_cache[k] = lic
     return lic
 
